@@ -250,10 +250,44 @@ def render(kc: int, i0: int, i1: int, i2: int, ent: bool, child_first: bool, bac
     return True
 
 
+def table_order(perm: int, has_seq: bool, i0: int, i1: int, i2: int, backend: int) -> bool:
+    """
+    requires: 0 <= perm < 24 and 0 <= i0 < len(BSET) and 0 <= i1 < len(BSET) and 0 <= i2 < len(BSET) and 0 <= backend <= 1
+    """
+    # a conceptual table, its row, a column and the row's SEQUENCE type, declared in every order: the row is postponed on
+    # its SEQUENCE type name, the column on the row, ... - all of it must compile and resolve whatever comes first
+    from harness.tok import seq
+    a0, a1, a2 = pick(BSET, i0), pick(BSET, i1), pick(BSET, i2)
+    tbl = m.object_type('xTable', seq('SEQUENCE OF XEntry'), m.oid('iso', a0), access='not-accessible', descr=m.text('d'))
+    row = m.object_type('xEntry', seq('XEntry'), m.oid('xTable', a1), access='not-accessible', descr=m.text('d'), index=[(False, 'c1')])
+    col = m.object_type('c1', seq('Integer32'), m.oid('xEntry', a2), descr=m.text('d'))
+    sq = m.sequence_type('XEntry', [('c1', 'Integer32')]) if has_seq else []
+    parts = [tbl, row, col, sq]
+    body = [parts[i] for i in pick(PERMS4, perm)]
+    try:
+        res = _compile([m.module('M', [], body)], backend='pysnmp' if backend else 'json')
+    except error.PySmiError:
+        return False
+    ctx = res.ctx['M']
+    exp = {'xTable': (1, a0), 'xEntry': (1, a0, a1), 'c1': (1, a0, a1, a2)}
+    for name, oid in exp.items():
+        got = ctx[name]['oid']
+        if backend:
+            if got != oid:
+                return False
+        elif got != '.'.join(str(x) for x in oid):
+            return False
+    return set(res.info['M'].oids) == set('.'.join(str(x) for x in o) for o in exp.values())
+
+
 def conditions(prop, tier):
     q = tier == 'quick'
     t = 280 if q else 1500
     out = []
+    for be in (0, 1):
+        out.append(dict(name='C01.K2.table-order.%s' % ('pysnmp' if be else 'json'), fn='table_order', fixed=dict(backend=be), timeout=t,
+                        extra_pre=['i1 == 1 and i2 <= 1'] if q else [],
+                        bounds='table, row, column and the row\'s SEQUENCE type (present or not) in all 24 declaration orders; arcs from the boundary set'))
     for r, p3 in ((0, 0), (1, 1), (2, 2)) if q else [(r, p3) for r in (0, 1, 2) for p3 in (0, 1, 2)]:
         out.append(dict(name='C01.K1.tree-order.r%d-p%d' % (r, p3), fn='tree_order', fixed=dict(r=r, p3=p3), timeout=t,
                         bounds='4 nodes, all 6 tree shapes x all 24 declaration orders x child spelling {p a | p x(m) a} per '
@@ -281,7 +315,9 @@ def conditions(prop, tier):
 
 
 def selftests(prop):
-    return [('tree_order', dict(p2=1, p3=0, perm=17, r=2, sp1=1, sp2=0, sp3=1, a0=3, a1=6, a2=0, a3=U32, mid=9)),
+    return [('table_order', dict(perm=9, has_seq=True, i0=1, i1=2, i2=3, backend=0)),
+            ('table_order', dict(perm=23, has_seq=False, i0=0, i1=1, i2=1, backend=1)),
+            ('tree_order', dict(p2=1, p3=0, perm=17, r=2, sp1=1, sp2=0, sp3=1, a0=3, a1=6, a2=0, a3=U32, mid=9)),
             ('kinds', dict(kp=0, kc=2, child_first=True, a0=3, a1=6, a2=1)),
             ('modules', dict(m1=True, m2=False, hy0=False, hy1=False, order=0, inner=False, a0=3, a1=6, a2=1)),
             ('same_name', dict(a0=1, a1=2, a2=3, a3=0, order=1, local_first=True, backend=0)),
